@@ -183,6 +183,8 @@ class DataChunk(Chunk):
     def __init__(self, flags: int = 0, body: Optional[bytes] = None) -> None:
         self.flags = flags
         if body:
+            if len(body) < 12:
+                raise ValueError("SCTP DATA chunk is too short")
             (self.tsn, self.stream_id, self.stream_seq, self.protocol) = unpack_from(
                 "!LHHL", body
             )
@@ -231,6 +233,8 @@ class ForwardTsnChunk(Chunk):
         self.flags = flags
         self.streams: list[tuple[int, int]] = []
         if body:
+            if len(body) < 4 or len(body) % 4:
+                raise ValueError("SCTP FORWARD-TSN chunk has an invalid length")
             self.cumulative_tsn = unpack_from("!L", body, 0)[0]
             pos = 4
             while pos < len(body):
@@ -267,6 +271,8 @@ class BaseInitChunk(Chunk):
     def __init__(self, flags: int = 0, body: Optional[bytes] = None) -> None:
         self.flags = flags
         if body:
+            if len(body) < 16:
+                raise ValueError("SCTP INIT / INIT-ACK chunk is too short")
             (
                 self.initiate_tag,
                 self.advertised_rwnd,
@@ -317,12 +323,16 @@ class SackChunk(Chunk):
         self.gaps = []
         self.duplicates = []
         if body:
+            if len(body) < 12:
+                raise ValueError("SCTP SACK chunk is too short")
             (
                 self.cumulative_tsn,
                 self.advertised_rwnd,
                 nb_gaps,
                 nb_duplicates,
             ) = unpack_from("!LLHH", body)
+            if 12 + 4 * (nb_gaps + nb_duplicates) > len(body):
+                raise ValueError("SCTP SACK chunk block counts exceed its length")
             pos = 12
             for i in range(nb_gaps):
                 self.gaps.append(unpack_from("!HH", body, pos))
@@ -365,6 +375,8 @@ class ShutdownChunk(Chunk):
     def __init__(self, flags: int = 0, body: Optional[bytes] = None) -> None:
         self.flags = flags
         if body:
+            if len(body) < 4:
+                raise ValueError("SCTP SHUTDOWN chunk is too short")
             self.cumulative_tsn = unpack_from("!L", body)[0]
         else:
             self.cumulative_tsn = 0
